@@ -215,6 +215,7 @@ def run_lib(case, root, variant, deps, inv, ends, producers, unresolved, res):
             res.violation(mech_for(case), "valid workflow rejected / crashed: %r" % (e,), order=order, targets=[(t["name"], t["wd"], t["ins_expr"], t["outs_expr"]) for t in vt])
             continue
         res.mon("lib_graphs")
+        res.obs("order%s" % "".join(map(str, order)), {"targets": [(t["name"], t["wd_rel"], t["ins_expr"], t["outs_expr"]) for t in vt], "gwf_dependencies": {k.name: sorted(d.name for d in v) for k, v in g.dependencies.items() if v}})
         ge = {t.name for t in g.endpoints()}
         gd = {t.name: {d.name for d in g.dependencies.get(t, ())} for t in g.targets.values()}
         gi = {t.name: {d.name for d in g.dependents.get(t, ())} for t in g.targets.values()}
